@@ -60,7 +60,12 @@ def main():
         res["checks"][pid] = info
         sh("git checkout evidence/%s.json" % pid, cwd=VERIF)
     sh("git reset --hard -q && git clean -fdq", cwd=wt)
-    sh("rm -rf work/harness-* evidence/replay", cwd=VERIF)
+    # remove only THIS worktree's private harness copy (common.harness_dir: work/harness-<sha1 of the worktree path>): several
+    # seedtests run side by side in one tree, and `rm -rf work/harness-*` deleted the crate another one was building
+    # (seen as `harness-build-failed` in seeded/C01-8)
+    import hashlib
+    tag = hashlib.sha1(os.path.realpath(wt).encode()).hexdigest()[:10]
+    sh("rm -rf work/harness-%s work/srctables-%s" % (tag, tag), cwd=VERIF)
     dst = os.path.join(VERIF, "seeded", name)
     os.makedirs(dst, exist_ok=True)
     for f in ("patch.diff", "seeded_demo.rs"):
